@@ -943,6 +943,67 @@ func UFSig(name string) (args []Sort, res Sort, ok bool) {
 	return s.Args, s.Res, ok
 }
 
+// HasStringSort reports whether any subterm has sort String (such queries go to cvc5, which is
+// orders of magnitude faster than z3 on them; measured 0.24 s vs 56 s on a 447-query transcript).
+func HasStringSort(ts ...*Term) bool {
+	seen := map[int]bool{}
+	var walk func(t *Term) bool
+	walk = func(t *Term) bool {
+		if seen[t.ID] {
+			return false
+		}
+		seen[t.ID] = true
+		if t.Sort.K == KStr || t.Sort.K == KInt || t.Op == "raw" {
+			return true
+		}
+		for _, a := range t.Args {
+			if walk(a) {
+				return true
+			}
+		}
+		return false
+	}
+	for _, t := range ts {
+		if walk(t) {
+			return true
+		}
+	}
+	return false
+}
+
+// HasHardArith reports non-linear bit-vector arithmetic or floating point (z3 territory).
+func HasHardArith(ts ...*Term) bool {
+	seen := map[int]bool{}
+	var walk func(t *Term) bool
+	walk = func(t *Term) bool {
+		if seen[t.ID] {
+			return false
+		}
+		seen[t.ID] = true
+		switch t.Op {
+		case "bvmul", "bvudiv", "bvurem", "bvsdiv", "bvsrem":
+			if !t.Args[0].IsConst() && !t.Args[1].IsConst() || t.Sort.W > 64 {
+				return true
+			}
+		}
+		if t.Sort.K == KF64 {
+			return true
+		}
+		for _, a := range t.Args {
+			if walk(a) {
+				return true
+			}
+		}
+		return false
+	}
+	for _, t := range ts {
+		if walk(t) {
+			return true
+		}
+	}
+	return false
+}
+
 // HasStringOps reports whether any term uses string theory operators beyond
 // equality on variables/constants (used to route queries to the string solver).
 func HasStringOps(ts ...*Term) bool {
